@@ -132,6 +132,20 @@ func init() {
 				cfg.PJoin, cfg.PLeave, cfg.MaxJoins, cfg.MaxLeaves = 0, 0, 0, 0
 				cfg.PSubmit = 0.25
 			}
+			if r3 := NewRNG(Mix(r.U64(), 0x736872)); r3.Bool(0.12) {
+				// a small validator set shrinks (3 -> 2) while payload events are still
+				// being created in the rounds before the change takes effect: events of
+				// the old set's rounds are received in rounds of the new set
+				cfg.N0 = 3
+				cfg.Stores = []string{"inmem", "inmem", "inmem"}
+				cfg.LeaveFirst = true
+				cfg.MaxLeaves, cfg.MaxJoins = 1, 0
+				cfg.PLeave, cfg.PJoin = 0.01, 0
+				cfg.PSilence, cfg.PCrash, cfg.PPartition = 0, 0, 0
+				cfg.PSubmit = 0.4
+				cfg.Straggler = 0
+				cfg.Steps = r3.Range(60, 140)
+			}
 			if r2 := NewRNG(Mix(r.U64(), 0x64656570)); r2.Bool(0.15) {
 				// a synthetic history whose longest election survives one or two coin
 				// rounds (coin bits ground), then fair gossip among all validators:
